@@ -287,7 +287,16 @@ func (s MinPriorityCoinSelector) CoinSelect(targetValue bchutil.Amount, coins []
 				if newMaxInputs > numLow {
 					newMaxInputs = numLow
 				}
-				newMinAvgValueAge := ((s.MinAvgValueAgePerInput * int64(allHigh.Num()+numLow)) - allHigh.TotalValueAge()) / int64(numLow)
+				// The low priority coins have to contribute whatever value-age
+				// the high priority coins lack for the whole selection.  Round
+				// the per-coin requirement up: rounding down under-estimates
+				// it, and it has to hold even if fewer than numLow coins end
+				// up being selected.
+				missingValueAge := (s.MinAvgValueAgePerInput * int64(allHigh.Num()+numLow)) - allHigh.TotalValueAge()
+				newMinAvgValueAge := missingValueAge / int64(numLow)
+				if missingValueAge > 0 && missingValueAge%int64(numLow) != 0 {
+					newMinAvgValueAge++
+				}
 
 				// find the minimum priority that can be added to set
 				lowSelect, err := (&MinPriorityCoinSelector{
